@@ -46,10 +46,44 @@ fn run_one(text: &str, strict: bool, spec: usize, entry: usize, tmp: &std::path:
     r
 }
 
+pub const NEST_KINDS: [&str; 8] = ["nest-ifdata", "nest-a2ml", "chain-a2ml", "dims-a2ml", "seq-a2ml", "tagged-a2ml", "typed-ifdata", "nest-unknown"];
+
+/// deeply nested structures: blocks in uninterpreted IF_DATA, A2ML types nested directly / through a chain of named
+/// types / through array dimensions / through ( )* and tagged members, IF_DATA content interpreted with a nested
+/// definition, unknown A2L blocks
+pub fn nest_text(kind: &str, depth: usize) -> String {
+    let head = "ASAP2_VERSION 1 71 /begin PROJECT p \"\" /begin MODULE m \"\" ";
+    let tail = "/end MODULE /end PROJECT";
+    match kind {
+        "nest-ifdata" => format!("{head}/begin IF_DATA x {}{}/end IF_DATA {tail}", "/begin a ".repeat(depth), "/end a ".repeat(depth)),
+        "nest-a2ml" => format!("{head}/begin A2ML block \"IF_DATA\" {}int; {}/end A2ML /begin IF_DATA 5 /end IF_DATA {tail}", "struct { ".repeat(depth), "}; ".repeat(depth)),
+        "chain-a2ml" => {
+            let mut defs = String::from("struct S0 { int; }; ");
+            for k in 1..=depth {
+                defs.push_str(&format!("struct S{k} {{ struct S{}; }}; ", k - 1));
+            }
+            format!("{head}/begin A2ML {defs}block \"IF_DATA\" struct S{depth}; /end A2ML /begin IF_DATA 5 /end IF_DATA {tail}")
+        }
+        // every definition refers twice to the one before: the expanded type doubles with each line
+        "laughs-a2ml" => {
+            let mut defs = String::from("struct S0 { int; }; ");
+            for k in 1..=depth {
+                defs.push_str(&format!("struct S{k} {{ struct S{}; struct S{}; }}; ", k - 1, k - 1));
+            }
+            format!("{head}/begin A2ML {defs}block \"IF_DATA\" struct S{depth}; /end A2ML /begin IF_DATA 5 /end IF_DATA {tail}")
+        }
+        "dims-a2ml" => format!("{head}/begin A2ML block \"IF_DATA\" struct {{ int{}; }}; /end A2ML /begin IF_DATA 5 /end IF_DATA {tail}", "[1]".repeat(depth)),
+        "seq-a2ml" => format!("{head}/begin A2ML block \"IF_DATA\" {}int; {}/end A2ML /begin IF_DATA T 5 /end IF_DATA {tail}", "taggedstruct { \"T\" ( ".repeat(depth), ")*; }; ".repeat(depth)),
+        "tagged-a2ml" => format!("{head}/begin A2ML block \"IF_DATA\" {}int; {}/end A2ML /begin IF_DATA 5 /end IF_DATA {tail}", "taggedunion { block \"B\" ".repeat(depth), "}; ".repeat(depth)),
+        "typed-ifdata" => format!("{head}/begin A2ML block \"IF_DATA\" {}int; {}/end A2ML /begin IF_DATA {}5 {}/end IF_DATA {tail}", "taggedunion { block \"B\" ".repeat(depth.min(60)), "}; ".repeat(depth.min(60)), "/begin B ".repeat(depth), "/end B ".repeat(depth)),
+        _ => format!("{head}{}{}{tail}", "/begin UNKNOWN ".repeat(depth), "/end UNKNOWN ".repeat(depth)),
+    }
+}
+
 pub fn run(args: &Args) -> Report {
     let mut rep = Report::new(
         "C03",
-        "token soups over the lexical alphabet, byte noise, generated documents, every k-th prefix and single-token mutations of documents, hand-kept corner cases (former panics), nested-structure stress (depth <= 200) x strict x a2ml_spec {none, valid, invalid} x entry {load_from_string, load_fragment, load(file)}; outcome must be ok or an error value. non-trivial = non-blank input; distinct = distinct (text, configuration)",
+        "token soups over the lexical alphabet, byte noise, generated documents, every k-th prefix and single-token mutations of documents, hand-kept corner cases (former panics), nested-structure stress (8 shapes, depth 3 .. 200000, dense around the nesting limit of 100) x strict x a2ml_spec {none, valid, invalid} x entry {load_from_string, load_fragment, load(file)}; outcome must be ok or an error value. non-trivial = non-blank input; distinct = distinct (text, configuration)",
     );
     let mut rng = Rng::new(args.seed);
     let tmp = std::env::temp_dir().join(format!("a2lverif_c03_{}", std::process::id()));
@@ -62,11 +96,7 @@ pub fn run(args: &Args) -> Report {
             // generated witness, e.g. gen:nest-ifdata:20000 (too long for a command line as hex)
             let p: Vec<&str> = spec.split(':').collect();
             let depth: usize = p.get(1).and_then(|x| x.parse().ok()).unwrap_or(10);
-            let text = match p[0] {
-                "nest-ifdata" => format!("ASAP2_VERSION 1 71 /begin PROJECT p \"\" /begin MODULE m \"\" /begin IF_DATA x {} {} /end IF_DATA /end MODULE /end PROJECT", "/begin a ".repeat(depth), "/end a ".repeat(depth)),
-                "nest-a2ml" => format!("ASAP2_VERSION 1 71 /begin PROJECT p \"\" /begin MODULE m \"\" /begin A2ML block \"IF_DATA\" {} int; {} ; /end A2ML /end MODULE /end PROJECT", "struct {{ ".repeat(depth), "}} ".repeat(depth)),
-                _ => format!("ASAP2_VERSION 1 71 /begin PROJECT p \"\" /begin MODULE m \"\" {} {} /end MODULE /end PROJECT", "/begin UNKNOWN ".repeat(depth), "/end UNKNOWN ".repeat(depth)),
-            };
+            let text = nest_text(p[0], depth);
             vec![(text, "replay-generated")]
         } else {
             vec![(String::from_utf8_lossy(&unhex(last)).into_owned(), "replay")]
@@ -74,6 +104,7 @@ pub fn run(args: &Args) -> Report {
     } else {
         lex_inputs(&mut rng, args.thorough)
     };
+    let mut gen_names: std::collections::HashMap<usize, String> = std::collections::HashMap::new();
     if args.replay.is_none() {
         if let Ok(g) = Grammar::load() {
             let ndocs = if args.thorough { 300 } else { 40 };
@@ -90,11 +121,15 @@ pub fn run(args: &Args) -> Report {
                 inputs.push((text, "document"));
             }
         }
-        // structure stress below the documented stack-depth finding (C03-deep-nesting needs >= 2000 levels)
-        for depth in [10usize, 50, 200] {
-            inputs.push((format!("ASAP2_VERSION 1 71 /begin PROJECT p \"\" /begin MODULE m \"\" /begin IF_DATA x {} {} /end IF_DATA /end MODULE /end PROJECT", "/begin a ".repeat(depth), "/end a ".repeat(depth)), "nesting"));
-            inputs.push((format!("ASAP2_VERSION 1 71 /begin PROJECT p \"\" /begin MODULE m \"\" /begin A2ML block \"IF_DATA\" {} int; {} ; /end A2ML /end MODULE /end PROJECT", "struct { ".repeat(depth), "} ".repeat(depth)), "nesting"));
-            inputs.push((format!("ASAP2_VERSION 1 71 /begin PROJECT p \"\" /begin MODULE m \"\" {} {} /end MODULE /end PROJECT", "/begin UNKNOWN ".repeat(depth), "/end UNKNOWN ".repeat(depth)), "nesting"));
+        // structure stress around and far beyond the nesting limits of the A2ML parser and of the IF_DATA parsers
+        // (unlimited recursion overflowed the stack at about 10000 levels)
+        let mut depths = vec![3usize, 10, 48, 49, 50, 51, 97, 98, 99, 100, 101, 102, 200];
+        depths.extend(if args.thorough { vec![1000, 3000, 30000, 200000] } else { vec![30000] });
+        for depth in depths {
+            for kind in NEST_KINDS {
+                gen_names.insert(inputs.len(), format!("gen:{kind}:{depth}"));
+                inputs.push((nest_text(kind, depth), "nesting"));
+            }
         }
         // malformed A2ML definitions with multi-byte characters at every alignment (error texts are cut out of the
         // input by byte position)
@@ -166,7 +201,13 @@ pub fn run(args: &Args) -> Report {
                 use std::io::Seek;
                 let _ = f.set_len(0);
                 let _ = f.seek(std::io::SeekFrom::Start(0));
-                let shown = if text.len() > 60000 { format!("<{} bytes, family {family}: {}>", text.len(), args.replay.clone().unwrap_or_default()) } else { hex(text.as_bytes()) };
+                let shown = if let Some(g) = gen_names.get(&i) {
+                    g.clone()
+                } else if text.len() > 60000 {
+                    format!("<{} bytes, family {family}: {}>", text.len(), args.replay.clone().unwrap_or_default())
+                } else {
+                    hex(text.as_bytes())
+                };
                 let _ = writeln!(f, "{} {} {} {}", u8::from(strict), spec, entry, shown);
                 let _ = f.flush();
             }
@@ -176,15 +217,15 @@ pub fn run(args: &Args) -> Report {
                 Ok(o) => rep.bump(&format!("outcome:{o}")),
                 Err(p) => {
                     rep.bump("outcome:panic");
-                    rep.fail("panic", format!("{} {} {} {}", u8::from(strict), spec, entry, hex(text.as_bytes())), format!("panic: {p} (strict={strict}, a2ml_spec={}, entry={})", ["none", "valid", "invalid"][spec], ["load_from_string", "load_fragment", "load(file)"][entry]));
+                    rep.fail("panic", format!("{} {} {} {}", u8::from(strict), spec, entry, gen_names.get(&i).cloned().unwrap_or_else(|| hex(text.as_bytes()))), format!("panic: {p} (strict={strict}, a2ml_spec={}, entry={})", ["none", "valid", "invalid"][spec], ["load_from_string", "load_fragment", "load(file)"][entry]));
                 }
             }
         }
         // element-level tie on a sample (spec = none, load_from_string)
         // (documents with A2ML / IF_DATA included since the special parsers are modelled; corner cases in both modes;
         //  very long inputs are left to the lexer tie)
-        if (i % 5 == 0 || family.ends_with("corner") || *family == "a2ml-multibyte") && text.len() < 40000 {
-            for strict in if family.ends_with("corner") { vec![false, true] } else { vec![i % 2 == 0] } {
+        if (i % 5 == 0 || family.ends_with("corner") || *family == "a2ml-multibyte" || *family == "nesting") && text.len() < 40000 {
+            for strict in if family.ends_with("corner") || *family == "nesting" { vec![false, true] } else { vec![i % 2 == 0] } {
                 if let Some((req, ans)) = tie_case(text, strict) {
                     rep.tie(req, ans);
                 }
